@@ -70,14 +70,25 @@ def rand_state(rng, names, safe_names, maxdepth=4, exec_extra=True):
 SCALES = [99, 100, 101, 255, 256, 257, 1023, 1024, 1025, 4095, 4096, 4097, 8193]
 
 
-def scale_up(rng, st, names):
+def scale_up(rng, st, names, family=None):
     """size thresholds: one component of the state is made LARGE (a deep stack, a long name incl. multi-byte
     characters, a code item of many points, a long vector) with a size at / around a power of two or a round
     number - where a cap, a buffer size or an algorithm switch would sit"""
     n = rng.choice(SCALES)
     k = rng.randrange(7)
+    fam = family.split(".")[0] if family else ""
+    if fam == "NAME" or family in ("CODE.FROMNAME", "CODE.PRINT"):
+        k = rng.choice([1, 1, 1, 0])
+    elif fam in ("CODE", "EXEC", "LIST"):
+        k = rng.choice([2, 2, 3, 0, 6])
+    elif fam in ("BOOLVECTOR", "INTVECTOR", "FLOATVECTOR"):
+        k = rng.choice([4, 5, 0])
+    elif fam in ("BOOLEAN", "INTEGER", "FLOAT", "INDEX"):
+        k = 0
     if k == 0:
-        fld = rng.choice(["bool", "int", "float", "name", "code", "exec", "bvec", "ivec", "fvec"])
+        own = {"BOOLEAN": "bool", "INTEGER": "int", "FLOAT": "float", "NAME": "name", "CODE": "code", "EXEC": "exec",
+               "BOOLVECTOR": "bvec", "INTVECTOR": "ivec", "FLOATVECTOR": "fvec"}.get(fam)
+        fld = own if own and rng.random() < 0.8 else rng.choice(["bool", "int", "float", "name", "code", "exec", "bvec", "ivec", "fvec"])
         fill = {"bool": lambda i: i % 3 == 0, "int": lambda i: i % 7 - 3, "float": lambda i: fbits(float(i % 5)), "name": lambda i: "n%d" % (i % 4),
                 "code": lambda i: Z(i % 9), "exec": lambda i: Z(i % 9), "bvec": lambda i: [i % 2 == 0], "ivec": lambda i: [i % 5], "fvec": lambda i: [fbits(1.0)]}[fld]
         st[fld] = list(st[fld][:3]) + [fill(i) for i in range(n)]
@@ -88,7 +99,7 @@ def scale_up(rng, st, names):
                       (unit * (n // len(unit.encode()) + 1))] + list(st["name"])
     elif k == 2:
         flat = L(*[rng.choice([Z(i % 5), N("q"), I("NOOP")]) for i in range(n - 1)])
-        st["code"] = [flat] + list(st["code"]); st["exec"] = list(st["exec"]) + [flat]
+        st["code"] = [flat] + list(st["code"]); st["exec"] = [flat] + list(st["exec"])
         st["int"] = [rng.choice([n - 1, n, n // 2, 0, 1])] + list(st["int"])
     elif k == 3:
         t = Z(1)
@@ -122,7 +133,7 @@ def tame_ints(st, limit=300):
 
 VEC_KEY = {"BOOLVECTOR": "bvec", "INTVECTOR": "ivec", "FLOATVECTOR": "fvec"}
 # small pool with duplicates, both zeros, infinities and NaN: exercises sort stability and unordered comparisons
-F32_SORT = [0x00000000, 0x80000000, fbits(1.0), fbits(1.0), fbits(-1.0), fbits(2.5), 0x7f800000, 0xff800000, 0x7fc00000, fbits(0.5)]
+F32_SORT = [0x00000000, 0x80000000, fbits(1.0), fbits(1.0), fbits(-1.0), fbits(2.5), 0x7f800000, 0xff800000, 0x7fc00000, 0xffc00000, fbits(0.5)]
 
 
 def rand_vec(rng, key, n):
@@ -543,7 +554,8 @@ def shape_nbr_case(rng, name, st, names):
     return st, bound
 
 
-def step_case(rng, name, names, safe_names, profile=None):
+def step_case(rng, name, names, safe_names, profile=None, scale=0.08):
+    """scale: probability that one component of the state is made LARGE (scale_up)"""
     if name.startswith("GRAPH."):
         return graph_case(rng, name, names, safe_names, profile)
     st = rand_state(rng, names, safe_names)
@@ -558,8 +570,8 @@ def step_case(rng, name, names, safe_names, profile=None):
         st = shape_vector_case(rng, name, st)
     if name == "FLOATVECTOR.SINE":
         st["int"] = [rng.randrange(-3 if SINE_NEGATIVE else 0, 13) for _ in st["int"]]
-    if name not in ALLOCATING and rng.random() < 0.05:
-        st = scale_up(rng, st, names)
+    if name not in ALLOCATING and rng.random() < scale:
+        st = scale_up(rng, st, names, name)
     if name in ALLOCATING:
         st = tame_ints(st)
         st["float"] = [fbits(rng.choice([0.0, 0.5, 1.0, 1.5, 2.0, 3.0])) for _ in st["float"]]
